@@ -23,7 +23,7 @@ RULE = (
 ASSUMPTIONS = ["no symlinks; outputs inside the project directory"]
 
 
-QUICK_BUDGET = {"cases": 640, "deadline_s": 90, "case_timeout_s": 60, "floors": {"clean_runs": 600, "files_compared": 6000, "remove_events_checked": 600, "declined_checked": 60}}
+QUICK_BUDGET = {"cases": 640, "deadline_s": 170, "case_timeout_s": 60, "floors": {"clean_runs": 224, "files_compared": 5793, "remove_events_checked": 600, "declined_checked": 35}}
 THOROUGH_FACTOR = 56  # thorough = the same workload with 56x the cases (floors scale along)
 
 
